@@ -51,6 +51,7 @@ import itertools
 import json
 
 from harness.core import PropSpec, Result, Violation, Ctx, run_model, CORPUS
+from harness.predlang import Num
 
 from bobocep.cep.action.action import BoboAction
 from bobocep.cep.action.handler import BoboActionHandlerBlocking
@@ -131,11 +132,11 @@ def datagen_of(spec):
 def pred_of(spec):
     kind = spec[0]
     if kind == 'eq':
-        return lambda e, h: isinstance(e, BoboEventSimple) and type(e.data) is int and e.data == spec[1]
+        return lambda e, h: isinstance(e, BoboEventSimple) and is_int(e.data) and e.data == spec[1]
     if kind == 'ne':
-        return lambda e, h: isinstance(e, BoboEventSimple) and type(e.data) is int and e.data != spec[1]
+        return lambda e, h: isinstance(e, BoboEventSimple) and is_int(e.data) and e.data != spec[1]
     if kind == 'lt':
-        return lambda e, h: isinstance(e, BoboEventSimple) and type(e.data) is int and e.data < spec[1]
+        return lambda e, h: isinstance(e, BoboEventSimple) and is_int(e.data) and e.data < spec[1]
     if kind == 'cx':
         return lambda e, h: isinstance(e, BoboEventComplex) and e.phenomenon_name == spec[1]
     if kind == 'ac':
@@ -170,11 +171,20 @@ def validator_of(v):
     return BoboValidatorType({'int': [int], 'str': [str], 'intstr': [int, str]}[v], subtype=False)
 
 
+OPAQUE = {'on': False}
+
+
+def is_int(d):
+    return type(d) is int or type(d) is Num
+
+
 def data_of(tok):
     if tok == 'none':
         return None
     if tok[0] == 'i':
-        return int(tok[1:])
+        # (case option `opaque`) numbers as values without JSON form: the engine outside the distributed component
+        # never needs the JSON text of an event
+        return Num(int(tok[1:])) if OPAQUE['on'] else int(tok[1:])
     assert tok[0] == 's'
     return tok[1:]
 
@@ -182,7 +192,7 @@ def data_of(tok):
 def show_data(d):
     if d is None:
         return 'none'
-    if type(d) is int:
+    if is_int(d):
         return f'i{d}'
     if type(d) is str:
         return 's' + d
@@ -219,6 +229,7 @@ class Rig(BoboReceiverSubscriber, BoboDeciderSubscriber, BoboProducerSubscriber,
 
     def __init__(self, case):
         self.case = case
+        OPAQUE['on'] = bool(case.get('opaque')) and case['validator'] == 'all'
         self.exec_log = []        # (action name, complex event, returned tuple)
         self.entry_log = []       # everything that (should have) entered the receiver queue, in order
         self.published = []       # BoboReceiverSubscriber.on_receiver_update
@@ -593,7 +604,8 @@ def gen_case(rng, cfg, build):
             ops.append(['step', rng.choice('RRDDPF')])
         else:
             ops.append(['update'])
-    return {'build': build, 'cfg': cfg, 'validator': validator, 'phens': phens, 'ops': ops, 'local_only': 1}
+    return {'build': build, 'cfg': cfg, 'validator': validator, 'phens': phens, 'ops': ops, 'local_only': 1,
+            'opaque': int(validator == 'all' and rng.random() < 0.4)}
 
 
 def witness_times0():
